@@ -43,6 +43,7 @@ class V:
     def __init__(self, kind='null', val=None, own=None):
         self.kind, self.val, self.own = kind, val, own
         self.block, self.length = None, 0
+        self.addr = None          # address of the character data of a string node (identity of its buffer)
         self.home = None          # (block, slot index) when the node lives in a children block / node stack
         self.ofs = None           # the parent index a SAX handler keeps in the payload of a container under construction
 
@@ -57,6 +58,7 @@ class V:
 
     def copy_bits(self, o):
         self.kind, self.val, self.own, self.block, self.length = o.kind, o.val, o.own, o.block, o.length
+        self.addr = getattr(o, 'addr', None)
 
     def get_member(self, name):
         if name in ('sv', 'a', 'o', 'raw', 'n', 't', 'next', 'data'):
@@ -106,6 +108,33 @@ class Block:
 
     def cast_to(self, t):
         return self
+
+
+class CharPtr:
+    """pointer to character data: compares by ADDRESS (two views of one buffer share it), carries the text from there on"""
+    value_eq = True
+
+    def __init__(self, text, addr):
+        self.text, self.addr = text, addr
+
+    def __eq__(self, o):
+        if isinstance(o, CharPtr):
+            return self.addr == o.addr
+        return False
+
+    def __hash__(self):
+        return hash(self.addr)
+
+    def __getitem__(self, i):
+        return ('chars', self.text)[i]      # lets code that expects the ('chars', text) tuple read the text
+
+
+_addr_counter = [1000]
+
+
+def new_addr():
+    _addr_counter[0] += 1
+    return _addr_counter[0]
 
 
 class BlockOff:
@@ -250,10 +279,18 @@ class MMap:
 
 
 def skey(v):
-    """bytes of a key argument (string-view model)"""
+    """bytes of a key argument (string-view model): ('sv', text) or ('sv', text, address)"""
     if isinstance(v, tuple) and v and v[0] == 'sv':
         return v[1]
     raise Unsupported('key %r' % (v,))
+
+
+def chars_text(x):
+    if isinstance(x, CharPtr):
+        return x.text
+    if isinstance(x, tuple) and x and x[0] == 'chars':
+        return x[1]
+    return None
 
 
 class Machine:
@@ -390,14 +427,26 @@ class Machine:
         # ---- string views
         if isinstance(o, tuple) and o and o[0] == 'sv':
             if name == 'data':
-                return ('chars', o[1])
+                return CharPtr(o[1], o[2]) if len(o) > 2 and o[2] is not None else ('chars', o[1])
             if name in ('size', 'length'):
                 return len(o[1])
             raise Unsupported('string view method %s' % name)
         if name in ('operator==', 'operator!=') and len(args) == 2 and all(isinstance(a, tuple) and a and a[0] == 'sv' for a in args):
             return int((args[0][1] == args[1][1]) == (name == 'operator=='))
-        if e.get('k') == 'ctor' and (e.get('cname') or '') in ('basic_string_view', 'StringView') and len(args) == 2 and isinstance(args[0], tuple) and args[0][0] == 'chars':
-            return ('sv', args[0][1][:args[1]])
+        if name in ('memcmp', '__builtin_memcmp') and len(args) == 3 and chars_text(args[0]) is not None and chars_text(args[1]) is not None:
+            a_, b_, k_ = chars_text(args[0]), chars_text(args[1]), args[2]
+            xa, xb = (a_ + '\x01' * 64)[:k_], (b_ + '\x02' * 64)[:k_]
+            return (xa > xb) - (xa < xb)
+        if e.get('k') == 'ctor' and (e.get('cname') or '') in ('basic_string_view', 'StringView') and len(args) == 2 and chars_text(args[0]) is not None:
+            return ('sv', chars_text(args[0])[:args[1]], getattr(args[0], 'addr', None))
+        if e.get('k') == 'ctor' and (e.get('cname') or '') in ('basic_string_view', 'StringView') and len(args) == 1 and chars_text(args[0]) is not None:
+            # from a bare const char*: strlen decides - everything up to the end of the buffer the pointer points into
+            return ('sv', chars_text(args[0]), getattr(args[0], 'addr', None))
+        if name in ('InlinedMemcmpEq',) and len(args) == 3 and chars_text(args[0]) is not None and chars_text(args[1]) is not None:
+            a_, b_, k_ = chars_text(args[0]), chars_text(args[1]), args[2]
+            if k_ > len(a_) or k_ > len(b_):
+                raise UndefinedBehaviour('%d bytes compared of strings with %d / %d bytes' % (k_, len(a_), len(b_)))
+            return int(a_[:k_] == b_[:k_])
         # ---- allocator
         if name == 'Free' and len(args) == 1:
             a = args[0]
@@ -531,11 +580,14 @@ class Machine:
             if name == 'GetStringView':
                 if n.kind != 'str':
                     raise UndefinedBehaviour('GetStringView() of a %s slot' % n.kind)
-                return ('sv', n.val)
+                if n.addr is None:
+                    n.addr = new_addr()
+                return ('sv', n.val, n.addr)
             if name == 'SetString':
                 M.call('destroy', n)
                 sv_ = args[0]
                 n.kind, n.val, n.block, n.length = 'str', skey(sv_), None, 0
+                n.addr = new_addr() if len(args) >= 2 else (sv_[2] if len(sv_) > 2 and sv_[2] is not None else new_addr())
                 n.own = M.ledger.alloc('copied string %r' % n.val) if len(args) >= 2 else None
                 return n
             if name in ('SetNull', 'setNullImpl'):
